@@ -81,6 +81,14 @@ func (w *World) value64(r *Rng, b int) uint64 {
 // range64 picks [start,end): inside a bucket, or crossing a 2^32 boundary with small extents.
 func (w *World) range64(r *Rng) (uint64, uint64) {
 	h := uint64(w.X.bucketKey(r))
+	if r.Chance(1, 300) && h < 0xFFFFFFF0 {
+		// one to three whole buckets, plus ragged edges
+		s := h<<32 - uint64(r.Intn(70000))
+		if h == 0 {
+			s = uint64(r.Intn(70000))
+		}
+		return s, (h+uint64(1+r.Intn(3)))<<32 + uint64(r.Intn(70000))
+	}
 	switch r.Intn(5) {
 	case 0, 1: // inside one bucket, 32-bit style
 		s, e := w.rangeArgs(r)
@@ -129,6 +137,23 @@ func vals64(h uint32, key uint16, shape, n int, seed uint64) []uint64 {
 		}
 		return out
 	}
+	if shape == 6 {
+		// a short burst of consecutive values in each of several consecutive buckets
+		// (one tiny run chunk per bucket once run-optimised)
+		nb := 2 + int(seed>>8)%8
+		out := make([]uint64, 0, nb*8)
+		for i := 0; i < nb; i++ {
+			hh := uint64(h) + uint64(i)
+			if hh > 0xFFFFFFFF {
+				break
+			}
+			lo := uint64(key)<<16 | ((seed >> 16) & 0xFFF0)
+			for j := uint64(0); j < 4+(seed>>20)%6; j++ {
+				out = append(out, hh<<32|(lo+j))
+			}
+		}
+		return out
+	}
 	v32 := Vals(key, shape, n, seed)
 	out := make([]uint64, len(v32))
 	r := NewRng(seed ^ 0x5151)
@@ -155,6 +180,31 @@ func eq64(bm *roaring64.Bitmap, m *model.Set64) (ok bool, detail string) {
 	}()
 	want := m.Card()
 	got := bm.GetCardinality()
+	if want > GiantCard {
+		// universe-scale: bucket by bucket through the hook's read-only view, each bucket
+		// with the 32-bit comparison (which itself goes chunk-wise when large)
+		if got != want {
+			return false, fmt.Sprintf("cardinality: GetCardinality=%d model=%d", got, want)
+		}
+		bs := bm.VerifBuckets()
+		keys := m.Buckets()
+		if len(bs) != len(keys) {
+			return false, fmt.Sprintf("%d buckets, model has %d", len(bs), len(keys))
+		}
+		for i, h := range keys {
+			if bs[i].Key != h || bs[i].Inner == nil {
+				return false, fmt.Sprintf("bucket %d has key %#x, model %#x", i, bs[i].Key, h)
+			}
+			if ok, d := eq32(bs[i].Inner, m.Bucket(h)); !ok {
+				return false, fmt.Sprintf("bucket %#x: %s", h, d)
+			}
+			probe := uint64(h)<<32 | 0x12345
+			if bm.Contains(probe) != m.Contains(probe) {
+				return false, fmt.Sprintf("Contains(%#x) wrong", probe)
+			}
+		}
+		return true, ""
+	}
 	if got > 1<<28 {
 		return false, fmt.Sprintf("cardinality %d absurd (want %d)", got, want)
 	}
@@ -190,12 +240,48 @@ func (w *World) rebuild64(i int) {
 		defer func() { recover() }()
 		cow = o.BM.GetCopyOnWrite()
 	}()
-	bm := roaring64.New()
-	bm.AddMany(o.M.Slice())
+	bm := buildFromModel64(o.M)
 	if cow {
 		bm.SetCopyOnWrite(true)
 	}
 	w.X.B64[i] = &Obj64{BM: bm, M: o.M, Prov: "rebuilt"}
+}
+
+// buildFromModel64 constructs a 64-bit bitmap holding exactly m through a clean route.
+func buildFromModel64(m *model.Set64) *roaring64.Bitmap {
+	bm := roaring64.New()
+	if m.Card() <= GiantCard {
+		bm.AddMany(m.Slice())
+		return bm
+	}
+	for _, h := range m.Buckets() {
+		b := m.Bucket(h)
+		ks := b.Keys()
+		for i := 0; i < len(ks); i++ {
+			k := ks[i]
+			base := uint64(h)<<32 | uint64(k)<<16
+			if b.IsFullChunk(k) {
+				j := i
+				for j+1 < len(ks) && ks[j+1] == ks[j]+1 && b.IsFullChunk(ks[j+1]) {
+					j++
+				}
+				end := uint64(h)<<32 + (uint64(ks[j])+1)<<16 // may be the first value of the next bucket
+				if end == 0 {
+					// the very top of the 64-bit range cannot be an exclusive end
+					bm.AddRange(base, ^uint64(0))
+					bm.Add(^uint64(0))
+				} else {
+					bm.AddRange(base, end)
+				}
+				i = j
+				continue
+			}
+			var vals []uint64
+			b.EachInChunk(k, func(x uint32) bool { vals = append(vals, uint64(h)<<32|uint64(x)); return true })
+			bm.AddMany(vals)
+		}
+	}
+	return bm
 }
 
 func (w *World) out64(i int) { w.X.outs64[i] = true }
@@ -207,8 +293,7 @@ func (w *World) setResult64(dst int, bm *roaring64.Bitmap, m *model.Set64, prov 
 		if !w.panicked {
 			w.fail(w.curTag, "nil-result", "operation returned nil", w.curOp+" returned nil")
 		}
-		bm = roaring64.New()
-		bm.AddMany(m.Slice())
+		bm = buildFromModel64(m)
 	}
 	var rs []int
 	for _, r := range regions {
@@ -531,8 +616,9 @@ func init() {
 				if !slots64OK(w, st, 1, 2) || st.A[0] > st.A[1] {
 					return false
 				}
-				// adding or flipping more than ~two partial buckets is unaffordable for the observer
-				return name == "removerange64" || st.A[1]-st.A[0] <= 1<<20
+				// huge add/flip ranges are affordable for the model (full chunks are a shared sentinel) and
+				// for the observer (bucket-wise comparison) up to a few whole buckets
+				return name == "removerange64" || st.A[1]-st.A[0] <= 1<<20 || (st.A[1]-st.A[0] <= 4<<32 && w.X.B64[st.S[0]].M.Card() < 3<<32)
 			},
 			exec: func(w *World, st *Step) {
 				o := w.X.B64[st.S[0]]
@@ -582,6 +668,12 @@ func init() {
 					o.Regions = nil
 				}
 				o.NoCopy = false
+			case 6:
+				oo := w.X.B64[st.S[0]]
+				oo.M.Clear()
+				oo.Regions = nil
+				w.out64(st.S[0])
+				w.try("C17", func() { oo.BM.Clear() })
 			default:
 				if st.S[0] != st.S[1] && w.step%7 == 0 {
 					oo := w.X.B64[st.S[0]]
@@ -657,7 +749,7 @@ func init() {
 			return Step{S: []int{w.slot64(r), w.slot64(r)}, A: []uint64{s, e}}, true
 		},
 		valid: func(w *World, st *Step) bool {
-			return slots64OK(w, st, 2, 2) && st.A[0] <= st.A[1] && st.A[1]-st.A[0] <= 1<<20
+			return slots64OK(w, st, 2, 2) && st.A[0] <= st.A[1] && (st.A[1]-st.A[0] <= 1<<20 || (st.A[1]-st.A[0] <= 4<<32 && w.X.B64[st.S[1]].M.Card() < 3<<32))
 		},
 		exec: func(w *World, st *Step) {
 			src := w.X.B64[st.S[1]]
@@ -726,15 +818,17 @@ func init() {
 			b := w.nonEmpty64(r)
 			return Step{S: []int{b}, A: []uint64{w.value64(r, b), r.U64()}}, true
 		},
-		valid: func(w *World, st *Step) bool { return slots64OK(w, st, 1, 2) },
-		exec:  execQuery64})
+		valid: func(w *World, st *Step) bool {
+			return slots64OK(w, st, 1, 2) && w.X.B64[st.S[0]].M.Card() <= GiantCard
+		},
+		exec: execQuery64})
 	reg(&opDef{name: "from32", tag: "C17",
 		gen: func(w *World, r *Rng) (Step, bool) {
 			return Step{S: []int{w.slot64(r)}, A: []uint64{uint64(w.nonEmptySlot(r))}}, true
 		},
 		valid: func(w *World, st *Step) bool {
 			// an empty source is outside what the property states (the constructor wraps it as an empty bucket)
-			return slots64OK(w, st, 1, 1) && int(st.A[0]) < len(w.B) && !w.B[st.A[0]].M.IsEmpty()
+			return slots64OK(w, st, 1, 1) && int(st.A[0]) < len(w.B) && !w.B[st.A[0]].M.IsEmpty() && !w.giant(int(st.A[0]))
 		},
 		exec: func(w *World, st *Step) {
 			src := w.B[st.A[0]]
@@ -836,7 +930,11 @@ func init() {
 				for k := 0; k < 64 && k < len(data); k++ {
 					offs = append(offs, k)
 				}
-				for i := 0; i < 600; i++ {
+				samples := 600
+				if len(data) > 256<<10 {
+					samples = 40 // megabyte streams: every prefix costs a full decode
+				}
+				for i := 0; i < samples; i++ {
 					offs = append(offs, r.Intn(len(data)))
 				}
 				offs = append(offs, len(data)-1, len(data)-2)
